@@ -103,6 +103,13 @@ class CachedStore(Entity):
         self._evictions = 0
         self._writebacks = 0
 
+    def set_clock(self, clock) -> None:
+        """Inject the simulation clock; time-based eviction policies follow it."""
+        super().set_clock(clock)
+        bind_clock = getattr(self._eviction_policy, "bind_clock", None)
+        if bind_clock is not None:
+            bind_clock(lambda: clock.now.to_seconds())
+
     def downstream_entities(self) -> list[Entity]:
         return [self._backing_store]
 
